@@ -139,6 +139,7 @@ static void checkC10(Ctx& c, long idx, Rng& r) {
     int prim = r.integer(0, nn - 1); for (int t = 0; t < 5 && d.nodes[prim].type == MT_Weld; ++t) prim = r.integer(0, nn - 1);
     std::vector<MotSpec> mots(nn);
     auto assign = [&](int k, int cl) {
+        if (d.nodes[k].type == MT_Weld) return;   // nothing to prescribe (and lockAt(Vector) on a 0-dof mobilizer takes &value[0] of an empty Vector: UB in MobilizedBody.cpp:81)
         MotSpec& sp = mots[k]; int ty = d.nodes[k].type; Motion::Level L3[3] = {Motion::Position, Motion::Velocity, Motion::Acceleration};
         Motion::Level rl = L3[r.integer(0, 2)];
         switch (cl) {
@@ -331,7 +332,7 @@ static void checkC10(Ctx& c, long idx, Rng& r) {
         double gfull = 0; for (int j = 0; j < m; ++j) { double sq = 0; for (int i = 0; i < nu; ++i) sq += G(j, i) * G(j, i); gfull = std::max(gfull, std::sqrt(sq)); }
         int rank = 0; double minr = 0; if (!F.empty()) rangeResidual(rows, std::vector<double>(F.size(), 0.0), &rank, &minr, std::max(gfull, 1e-3));   // absolute floor: an all-zero row (constraint between welded bodies) is rank deficient
         rowMinRatio = minr;
-        if (rank < m || minr < 1e-4) { consOK = false; c.skip("constraints-rank-deficient-on-free-mobilities"); c.obs("rank-deficient:" + ckey); }
+        if (rank < m || minr < 1e-3) { consOK = false; c.skip("constraints-rank-deficient-on-free-mobilities"); c.obs("rank-deficient:" + ckey); }
         else {
             double gs = mmaxabs(G) * ascale + 1;
             c.check("constraints-with-prescription:udoterr", vmaxabs(s.getUDotErr()), 1e-8 * gs * (1 + 1e-5 * cond), W("acceleration constraints not satisfied although consistent with the prescribed accelerations"));
@@ -361,7 +362,7 @@ static void checkC10(Ctx& c, long idx, Rng& r) {
         bool ok = true;
         try { T.m.sys.realize(t, Stage::Acceleration); } catch (const std::exception& e) { ok = false; c.obs("twin-realize-exception"); }
         if (ok && allFinite(t.getUDot())) {
-            double condC = m ? 100 : 1;
+            double condC = m ? 100 * std::max(1.0, 1e-2 / rowMinRatio) : 1;   // error amplification of the multiplier solve grows with 1/sigma_min(G_f)
             double tolE = tol * ascale * condC * (1 + tauScale / fscale), resE = vecDiff(t.getUDot(), udot);
             if (c.args.verbose && resE > 1e-3 * tolE) fprintf(stderr, "case %ld equivalence ratio %.3g cond %.3g m %d minr %.3g cons %s ascale %.3g tauScale %.3g\n", c.curCase, resE / tolE, cond, m, rowMinRatio, ckey.c_str(), ascale, tauScale);
             c.check("equivalence:twin-with-minus-tau:udot", resE, tolE, W("free model driven by (f - tau) does not reproduce the prescribed model's udot"));
